@@ -3,6 +3,7 @@
    completes it with exactly that response (the "if" direction of C03_routing, down to the bytes on the wire). *)
 From JV Require Import Base.Bytes Base.Dec Base.Utf8 Json.Json Json.JsonSer Json.JsonParse Json.JsonWf
   Model.Wire Model.ClientMgr Proofs.JsonFacts Proofs.WireFacts.
+From JV Require Import Proofs.ClientDispatchFacts Proofs.ClientReadersSingle.
 
 Definition wf_response (r : response) : Prop := wf_id (rs_id r) /\ wf_payload (rs_payload r).
 
@@ -10,20 +11,20 @@ Lemma drop_ws_object ms : exists tl, drop_while is_ascii_ws (ser_object ms) = x7
 Proof. unfold ser_object. cbn [drop_while is_ascii_ws]. eexists; reflexivity. Qed.
 
 Lemma classify_frame_object ms :
-  classify_frame (ser_object ms) = FSingle (classify_elem (ser_object ms)).
+  classify_frame (ser_object ms) = FSingle (classify_single (ser_object ms)).
 Proof.
-  unfold classify_frame. destruct (drop_ws_object ms) as [tl ->].
+  rewrite classify_frame_now. destruct (drop_ws_object ms) as [tl ->].
   cbn [beqb]. rewrite byte_eqb_refl. reflexivity.
 Qed.
 
-Lemma classify_frame_of_object t ms : t = ser_object ms -> classify_frame t = FSingle (classify_elem t).
+Lemma classify_frame_of_object t ms : t = ser_object ms -> classify_frame t = FSingle (classify_single t).
 Proof. intros ->. apply classify_frame_object. Qed.
 
 Theorem classify_frame_response r :
   wf_response r -> classify_frame (ser_response r) = FSingle (IResp r).
 Proof.
   intros [Hi Hp]. rewrite (classify_frame_of_object _ _ (ser_response_eq r)).
-  unfold classify_elem. rewrite (response_roundtrip r Hi Hp). reflexivity.
+  rewrite classify_single_now. rewrite (response_roundtrip r Hi Hp). reflexivity.
 Qed.
 
 (* a subscription notification is not a response: it has no id member *)
@@ -41,7 +42,7 @@ Theorem classify_frame_sub_notif me sid raw :
   classify_frame (ser_sub_notif me sid false raw) = FSingle (ISubNotif me sid raw).
 Proof.
   intros Hm Hs Hr. rewrite (classify_frame_of_object _ _ (ser_sub_notif_eq me sid false raw)).
-  unfold classify_elem. rewrite (sub_notif_not_response me sid false raw Hm Hs Hr).
+  rewrite classify_single_now. rewrite (sub_notif_not_response me sid false raw Hm Hs Hr).
   pose proof (sub_notif_roundtrip me sid false raw Hm Hs Hr) as R.
   change (parse_sub_notif k_result (ser_sub_notif me sid false raw) = Some (me, sid, raw)) in R.
   rewrite R. reflexivity.
@@ -52,7 +53,7 @@ Theorem classify_frame_sub_close me sid raw :
   classify_frame (ser_sub_notif me sid true raw) = FSingle (ISubErr me sid raw).
 Proof.
   intros Hm Hs Hr. rewrite (classify_frame_of_object _ _ (ser_sub_notif_eq me sid true raw)).
-  unfold classify_elem. rewrite (sub_notif_not_response me sid true raw Hm Hs Hr).
+  rewrite classify_single_now. rewrite (sub_notif_not_response me sid true raw Hm Hs Hr).
   pose proof (sub_notif_kind_distinguished me sid true raw Hm Hs Hr) as D.
   change (parse_sub_notif k_result (ser_sub_notif me sid true raw) = None) in D. rewrite D.
   pose proof (sub_notif_roundtrip me sid true raw Hm Hs Hr) as R.
@@ -74,7 +75,7 @@ Proof.
                     (unacked (upd_m s (set_requests (m s) (aremove id_eqb (rs_id r) (requests (m s))))))),
                [OComplete h (CResp r)], None)).
   { unfold apply. rewrite Hd, Hy, (classify_frame_response r Hw).
-    cbn [handle_back handle_elem_single]. unfold single_response. rewrite Hl.
+    rewrite ?handle_back_now; cbn [handle_back_ref handle_elem_single_ref]. unfold single_response. rewrite Hl.
     unfold complete. rewrite Ha. reflexivity. }
   rewrite E. destruct (settle _) as [s2 o2]. cbn [fst snd]. apply in_or_app. left. left. reflexivity.
 Qed.
